@@ -45,6 +45,8 @@ func checkC11(p *Prog, r *Report) {
 	ruleC11Rooted(p, a, r)
 	ruleC11Clean(p, a, r)
 	ruleC11LazyOnce(p, a, r)
+	ruleC11Renders(p, a, r)
+	ruleC11TplName(p, a, r)
 	ruleC11StaticName(p, a, r)
 	ruleC11ReadErrors(p, a, r)
 }
